@@ -451,6 +451,11 @@ class Interp:
             v = self.eval(e.operand)
             if isinstance(e.op, ast.Not):
                 return not self.truth(v, e.operand)
+            if isinstance(v, (int, float)) and not isinstance(v, bool):
+                if isinstance(e.op, ast.USub):
+                    return -v
+                if isinstance(e.op, ast.UAdd):
+                    return v
             return self.unaryop(e.op, v, e)
         if isinstance(e, ast.BinOp):
             return self.binop(e.op, self.eval(e.left), self.eval(e.right), e)
